@@ -13,7 +13,6 @@ Init == \E ws \in WordSizes, md \in Modes, m \in Orders : InitCfg(ws, md \div 2,
 
 \* word_out alphabet: LSB only / everything but the LSB (asymmetric, so bit order matters)
 WoutAlpha == IF WS = 1 THEN {0, 1} ELSE {1, (2 ^ WS) - 2}
-Inputs == [cs : BOOLEAN, sck : {0, 1}, sdi : {0, 1}, wout : WoutAlpha \cup {0}]
 
 \* the outputs the reference allows in a cycle with inputs i, given the strobe choice wc
 OutFor(i, wc) == [wc |-> wc,
@@ -22,12 +21,18 @@ OutFor(i, wc) == [wc |-> wc,
 
 Do(i) == LegalInput(i) /\ \E wc \in BOOLEAN : Step(i, OutFor(i, wc))
 
-Sample       == \E i \in Inputs : SampleEdge(i) /\ Do(i)
-Shift        == \E i \in Inputs : i.cs /\ IsEdge(i) /\ ~SampleEdge(i) /\ Do(i)
-Select       == \E i \in Inputs : i.cs /\ ~in.cs /\ Do(i)
-Deselect     == \E i \in Inputs : ~i.cs /\ in.cs /\ Do(i)
-ForeignClock == \E i \in Inputs : ~i.cs /\ ~in.cs /\ IsEdge(i) /\ Do(i)
-Hold         == \E i \in Inputs : i.cs = in.cs /\ ~IsEdge(i) /\ Do(i)
+\* Candidate inputs are built per kind of cycle (instead of filtering all of Inputs): an SCK edge
+\* leaves SDI and word_out alone, a CS change leaves SCK and word_out alone, a quiet cycle may
+\* change SDI and word_out.  LegalInput (in Do) still has the last word.
+Flip       == [in EXCEPT !.sck = 1 - @]
+Toggled(d) == [in EXCEPT !.cs = ~@, !.sdi = d]
+
+Sample       == SampleEdge(Flip) /\ Do(Flip)
+Shift        == in.cs /\ ~SampleEdge(Flip) /\ Do(Flip)
+ForeignClock == ~in.cs /\ Do(Flip)
+Select       == ~in.cs /\ \E d \in {0, 1} : Do(Toggled(d))
+Deselect     == in.cs /\ \E d \in {0, 1} : Do(Toggled(d))
+Hold         == \E d \in {0, 1}, w \in WoutAlpha : Do([in EXCEPT !.sdi = d, !.wout = w])
 
 Next == Sample \/ Shift \/ Select \/ Deselect \/ ForeignClock \/ Hold
 Spec == Init /\ [][Next]_vars
